@@ -132,6 +132,57 @@ func boundsCovered(p *Program, fn *ssa.Function) (checked int, bad []string) {
 			}
 		}
 	}
+	// the decoding steps may sit in a private part that is handed the input: its constant bounds on that parameter are
+	// covered by the length check that dominates the part's only call site
+	for _, g := range p.regionTop(fn) {
+		if g == fn {
+			continue
+		}
+		sites := p.realCallers(g)
+		if len(sites) != 1 || sites[0].Parent() != fn {
+			continue
+		}
+		for _, gb := range g.Blocks {
+			for _, ins := range gb.Instrs {
+				x, ok := ins.(*ssa.Slice)
+				if !ok {
+					continue
+				}
+				prm, ok := stripConv(x.X).(*ssa.Parameter)
+				if !ok {
+					continue
+				}
+				if _, isSlice := prm.Type().Underlying().(*types.Slice); !isSlice {
+					continue
+				}
+				gi := paramIndex(g, prm)
+				if gi < 0 || gi >= len(sites[0].Common().Args) {
+					continue
+				}
+				fprm, ok := stripConv(sites[0].Common().Args[gi]).(*ssa.Parameter)
+				if !ok || fprm.Parent() != fn {
+					continue
+				}
+				pi := paramIndex(fn, fprm)
+				for _, bound := range []ssa.Value{x.Low, x.High} {
+					if bound == nil {
+						continue
+					}
+					k, isK := constInt(bound)
+					if !isK || k == 0 {
+						continue
+					}
+					checked++
+					need := newLin()
+					need.Coef[lenAtom(pi)] = -1
+					need.Konst = k - 1
+					if !implies(sites[0].Block(), need) {
+						bad = append(bad, fmt.Sprintf("slice bound %d on the input at %s (in %s, called from %s) is not covered by a length check", k, p.Pos(x.Pos()), g.Name(), fn.Name()))
+					}
+				}
+			}
+		}
+	}
 	return
 }
 
@@ -524,6 +575,17 @@ func layoutSeq(p *Program, fn *ssa.Function) (string, int64) {
 				}
 			case *ssa.Call:
 				name := calleeShort(&x.Call)
+				// the steps may sit in a private part (a method of the parameters struct): spliced in at the call
+				if g := x.Call.StaticCallee(); g != nil && g != fn && g.Pkg == fn.Pkg && len(g.Blocks) > 0 && p.inRegion(fn, g) {
+					sub, sz := layoutSeq(p, g)
+					if sub != "" {
+						parts = append(parts, sub)
+					}
+					if sz > 0 {
+						size = sz
+					}
+					continue
+				}
 				switch name {
 				case "copy":
 					f := fieldOfAddr(x.Call.Args[0])
